@@ -76,9 +76,17 @@ RULE = ("cases = pipeline descriptions: one source (from_array/ones/zeros/arange
 ASSUMPTIONS = ["NumPy 2.x defines the expected values, dtype and shape",
                "the classic engine is evaluated in a helper subprocess with the same evaluator and the same descriptions",
                "sync scheduler in all three evaluations"]
-BUDGET = {"quick": 120, "thorough": 720}
-FLOORS = {"quick": {"evaluations": 1, "distinct_nontrivial": 1, "counters": {"rewritten_by_optimizer": 1}},
-          "thorough": {"evaluations": 1, "distinct_nontrivial": 1, "counters": {"rewritten_by_optimizer": 1}}}
+BUDGET = {"quick": 240, "thorough": 900}
+FLOORS = {"quick": {"evaluations": 500, "distinct_nontrivial": 420,
+                    "counters": {"compared_with_numpy": 480, "compared_with_classic": 460, "rewritten_by_optimizer": 250,
+                                 "compared_stage_optimize": 480, "compared_stage_lowered-unoptimized": 480,
+                                 "block_shapes_checked": 480, "classic_helper_calls": 1},
+                    "sets": {"expr_classes": 8}, "max_skipped_fraction": 0.25},
+          "thorough": {"evaluations": 5500, "distinct_nontrivial": 4600,
+                       "counters": {"compared_with_numpy": 5200, "compared_with_classic": 5000, "rewritten_by_optimizer": 2700,
+                                    "compared_stage_optimize": 5200, "compared_stage_lowered-unoptimized": 5200,
+                                    "block_shapes_checked": 5200, "classic_helper_calls": 1},
+                       "sets": {"expr_classes": 8}, "max_skipped_fraction": 0.25}}
 EXHAUSTIVE_SPACE = ("all 8x8 (source chunking, target chunking) pairs of a (3,2) array under rechunk->sum(axis=0) and under "
                     "rechunk->[1:, ::-1]->(+ y)")
 CLAIM = ("Every generated pipeline was evaluated by NumPy, by the expression engine (compute, optimize().compute and the "
@@ -129,7 +137,7 @@ def cases(tier, seed):
                              {"op": "slice", "idx": [["s", 1, None, None], ["s", None, None, -1]]},
                              {"op": "ew2", "f": "add", "rev": False,
                               "src": {"k": "from_array", "shape": [2, 2], "dtype": "float64", "seed": 8, "chunks": "match"}}]}
-    n = 1000 if tier == "quick" else 20000
+    n = 1000 if tier == "quick" else 12000
     for _ in range(n):
         yield P.gen_case(rng)
 
